@@ -1010,4 +1010,184 @@ theorem blockPhase_inv (inv : LineInv Q R) (cfg : Block.Cfg) (gas : Nat) (lines 
 
 end Induction
 
+
+/-! ### the block token constructors under two span-token lists -/
+
+theorem splitPipes_infix : ∀ (s : Str) (p : Option Char) (cur : Str), ∀ cell ∈ splitPipes s p cur, cell <:+: cur.reverse ++ s
+  | [], p, cur, cell, h => by
+    simp only [splitPipes, List.mem_singleton] at h
+    subst h; simp
+  | c :: rest, p, cur, cell, h => by
+    simp only [splitPipes] at h
+    split at h
+    · rcases List.mem_cons.mp h with rfl | h
+      · exact (List.prefix_append _ _).isInfix
+      · have := splitPipes_infix rest (some c) [] cell h
+        simp only [List.reverse_nil, List.nil_append] at this
+        exact this.trans ((List.suffix_cons c rest).isInfix.trans (List.suffix_append _ _).isInfix)
+    · have := splitPipes_infix rest (some c) (c :: cur) cell h
+      simpa using this
+
+theorem zipLongest_mem : ∀ (cs : List Str) (as : List (Option Nat)), ∀ z ∈ zipLongest cs as, ∀ c, z.1 = some c → c ∈ cs
+  | [], as, z, hz, c, hc => by
+    simp only [zipLongest, List.mem_map] at hz
+    obtain ⟨a, _, rfl⟩ := hz
+    cases hc
+  | x :: xs, [], z, hz, c, hc => by
+    simp only [zipLongest] at hz
+    rcases List.mem_cons.mp hz with rfl | hz
+    · cases hc; exact List.mem_cons_self ..
+    · exact List.mem_cons_of_mem _ (zipLongest_mem xs [] z hz c hc)
+  | x :: xs, a :: as, z, hz, c, hc => by
+    simp only [zipLongest] at hz
+    rcases List.mem_cons.mp hz with rfl | hz
+    · cases hc; exact List.mem_cons_self ..
+    · exact List.mem_cons_of_mem _ (zipLongest_mem xs as z hz c hc)
+
+section Congr
+variable {Q R : Str → Prop}
+
+/-- the two configurations tokenize every `R` string alike -/
+def InlSame (R : Str → Prop) (cfg' cfg : Document.Cfg) (fn : Footnotes.Table) : Prop :=
+  ∀ u, R u → inl cfg' fn u = inl cfg fn u
+
+theorem tableRow_go_congr (inv : LineInv Q R) (cfg' cfg : Document.Cfg) (fn : Footnotes.Table)
+    (H : InlSame R cfg' cfg fn) (ln : Nat) :
+    ∀ (zs : List (Option Str × Option Nat)), (∀ z ∈ zs, ∀ c, z.1 = some c → R c) →
+      tableRow.go cfg' fn ln zs = tableRow.go cfg fn ln zs
+  | [], _ => by simp only [tableRow.go]
+  | (c, a) :: rest, hz => by
+    have ih := tableRow_go_congr inv cfg' cfg fn H ln rest (fun z hm => hz z (List.mem_cons_of_mem _ hm))
+    cases c with
+    | none =>
+      simp only [tableRow.go]
+      rw [H [] inv.rnil, ih]
+    | some cell =>
+      have hc : R cell := hz _ (List.mem_cons_self ..) cell rfl
+      have hr : R (unescapePipes ((strip cell).length + 1) none (strip cell)) :=
+        inv.unesc _ _ _ (inv.rinfix _ _ hc (strip_infix cell))
+      simp only [tableRow.go]
+      rw [H _ hr, ih]
+
+theorem tableRow_congr (inv : LineInv Q R) (cfg' cfg : Document.Cfg) (fn : Footnotes.Table)
+    (H : InlSame R cfg' cfg fn) (line : Str) (hq : Q line) (al : List (Option Nat)) (ln : Nat) :
+    tableRow cfg' fn line al ln = tableRow cfg fn line al ln := by
+  unfold tableRow
+  simp only
+  rw [tableRow_go_congr inv cfg' cfg fn H ln]
+  intro z hz c hc
+  have hm := zipLongest_mem _ _ z hz c hc
+  have hm2 := (List.mem_filter.mp hm).1
+  have := splitPipes_infix _ _ _ c hm2
+  simp only [List.reverse_nil, List.nil_append] at this
+  exact inv.toR line c hq (this.trans (strip_infix line))
+
+theorem tableRows_congr (inv : LineInv Q R) (cfg' cfg : Document.Cfg) (fn : Footnotes.Table)
+    (H : InlSame R cfg' cfg fn) : ∀ (ls : List Str), (∀ l ∈ ls, Q l) → ∀ (al : List (Option Nat)) (ln : Nat),
+    tableRows cfg' fn ls al ln = tableRows cfg fn ls al ln
+  | [], _, _, _ => by simp only [tableRows]
+  | l :: rest, hq, al, ln => by
+    simp only [tableRows]
+    rw [tableRow_congr inv cfg' cfg fn H l (hq l (List.mem_cons_self ..)),
+      tableRows_congr inv cfg' cfg fn H rest (fun x hx => hq x (List.mem_cons_of_mem _ hx))]
+
+mutual
+theorem mkBlock_congr (inv : LineInv Q R) (cfg' cfg : Document.Cfg) (fn : Footnotes.Table) (H : InlSame R cfg' cfg fn) :
+    ∀ (e : Entry), EntryQ Q R e → mkBlock cfg' fn e = mkBlock cfg fn e
+  | .blockCode .., _ => by simp only [mkBlock]
+  | .heading lvl content closing ln og, hq => by
+    simp only [EntryQ] at hq
+    simp only [mkBlock]; rw [H content hq]
+  | .quote inner lo ln og, hq => by
+    simp only [EntryQ] at hq
+    simp only [mkBlock]; rw [mkBlocks_congr inv cfg' cfg fn H inner hq]
+  | .codeFence .., _ => by simp only [mkBlock]
+  | .thematicBreak .., _ => by simp only [mkBlock]
+  | .list items ln og, hq => by
+    simp only [EntryQ] at hq
+    simp only [mkBlock]; rw [mkItems_congr inv cfg' cfg fn H items hq]
+  | .table lines sl ln og, hq => by
+    simp only [EntryQ] at hq
+    match lines, hq with
+    | [], _ => simp only [mkBlock]
+    | [_], _ => simp only [mkBlock]
+    | l0 :: l1 :: rest, hq =>
+      have e1 := tableRow_congr inv cfg' cfg fn H l0 (hq l0 (List.mem_cons_self ..))
+      have e2 := tableRows_congr inv cfg' cfg fn H rest
+        (fun x hx => hq x (List.mem_cons_of_mem _ (List.mem_cons_of_mem _ hx)))
+      have e3 := tableRows_congr inv cfg' cfg fn H (l0 :: l1 :: rest) hq
+      simp only [mkBlock, e1, e2, e3]
+  | .footnote .., _ => by simp only [mkBlock]
+  | .linkRefDefs .., _ => by simp only [mkBlock]
+  | .paragraph lines ln og, hq => by
+    simp only [EntryQ] at hq
+    have hr : R (strip (lines.map lstrip).flatten) := by
+      refine inv.rinfix _ _ (inv.flat _ ?_) (strip_infix _)
+      intro l hl
+      obtain ⟨l', hl', rfl⟩ := List.mem_map.mp hl
+      exact inv.suffix _ _ (hq l' hl') (lstrip_suffix l')
+    simp only [mkBlock]; rw [H _ hr]
+  | .setext lines ln og, hq => by
+    simp only [EntryQ] at hq
+    have hr : R (joinNl (lines.dropLast.map strip)) := by
+      refine inv.join _ ?_
+      intro l hl
+      obtain ⟨l', hl', rfl⟩ := List.mem_map.mp hl
+      exact inv.toR _ _ (hq l' (List.mem_of_mem_dropLast hl')) (strip_infix l')
+    simp only [mkBlock]; rw [H _ hr]
+  | .htmlBlock .., _ => by simp only [mkBlock]
+  | .blankLine .., _ => by simp only [mkBlock]
+theorem mkBlocks_congr (inv : LineInv Q R) (cfg' cfg : Document.Cfg) (fn : Footnotes.Table) (H : InlSame R cfg' cfg fn) :
+    ∀ (es : List Entry), EntriesQ Q R es → mkBlocks cfg' fn es = mkBlocks cfg fn es
+  | [], _ => by simp only [mkBlocks]
+  | e :: es, hq => by
+    simp only [EntriesQ] at hq
+    simp only [mkBlocks]
+    rw [mkBlock_congr inv cfg' cfg fn H e hq.1, mkBlocks_congr inv cfg' cfg fn H es hq.2]
+theorem mkItems_congr (inv : LineInv Q R) (cfg' cfg : Document.Cfg) (fn : Footnotes.Table) (H : InlSame R cfg' cfg fn) :
+    ∀ (is : List Item), ItemsQ Q R is → mkItems cfg' fn is = mkItems cfg fn is
+  | [], _ => by simp only [mkItems]
+  | .mk inner lo ind pre ld ln og :: rest, hq => by
+    simp only [ItemsQ, ItemQ] at hq
+    simp only [mkItems]
+    rw [mkBlocks_congr inv cfg' cfg fn H inner hq.1, mkItems_congr inv cfg' cfg fn H rest hq.2]
+end
+
+/-- **buffer-level statement**: two configurations with the same block list whose span lists tokenize
+    every `R` string alike build the same document from every parse buffer that satisfies the invariant -/
+theorem parseLines_congr_buf (inv : LineInv Q R) (cfg' cfg : Document.Cfg) (hb : cfg'.block = cfg.block)
+    (H : ∀ fn, InlSame R cfg' cfg fn) (gas : Nat) (lines : List Str)
+    (hbuf : ∀ buf st, blockPhase cfg.block gas lines = .ok (buf, st) → EntriesQ Q R buf.entries) :
+    parseLines cfg' gas lines = parseLines cfg gas lines := by
+  unfold parseLines
+  rw [hb]
+  cases hbp : blockPhase cfg.block gas lines with
+  | err e => rfl
+  | ok p =>
+    obtain ⟨buf, st⟩ := p
+    simp only
+    rw [mkBlocks_congr inv cfg' cfg _ (H _) buf.entries (hbuf buf st hbp)]
+
+theorem parseLines_congr (inv : LineInv Q R) (cfg' cfg : Document.Cfg) (hb : cfg'.block = cfg.block)
+    (H : ∀ fn, InlSame R cfg' cfg fn) (gas : Nat) (lines : List Str) (hq : ∀ s ∈ lines, Q s) :
+    parseLines cfg' gas lines = parseLines cfg gas lines :=
+  parseLines_congr_buf inv cfg' cfg hb H gas lines
+    (fun buf st h => blockPhase_inv inv cfg.block gas lines buf st hq h)
+
+/-- **`Document(text)` under a span-token list with one more class `x`** whose `find` returns nothing on
+    every `R` string: the same document (`Q` = invariant of the lines, `R` = of the inline texts) -/
+theorem parse_insert (inv : LineInv Q R) (cfg' cfg : Document.Cfg) (pre post : List STok) (x : STok)
+    (hb : cfg'.block = cfg.block) (hs' : cfg'.span = pre ++ x :: post) (hs : cfg.span = pre ++ post)
+    (htrig : ∀ u, R u → ∀ core codes, findOne u core codes x = [])
+    (gas : Nat) (t : Str) (ht : ∀ l ∈ Lines.normalize (.str t), Q l) :
+    Document.parse cfg' gas t = Document.parse cfg gas t := by
+  unfold Document.parse
+  refine parseLines_congr inv cfg' cfg hb ?_ gas _ ht
+  intro fn u hu
+  show tokenizeInner cfg'.span fn u = tokenizeInner cfg.span fn u
+  rw [hs', hs]
+  exact tokenizeInner_insert pre post x fn u (htrig u hu)
+
+end Congr
+
 end Mistletoe.ContribSame
